@@ -25,7 +25,8 @@ import (
 var (
 	sidUniverse  = []string{"s1", "s2", "os1", "es1", "nosuch"}
 	seqUniverse  = []string{"0", "1", "2", "65535", "65536", "-1", "x"}
-	b64Universe  = []string{"aGVsbG8=", "aGVsbG8gd29ybGQ=", "", "AAAA", "!!!!", "aGVsbG8", "QQ==", strings.Repeat("QUFB", 700)}
+	b64Universe  = []string{"aGVsbG8=", "aGVsbG8gd29ybGQ=", "", "AAAA", "!!!!", "aGVsbG8", "QQ==", strings.Repeat("QUFB", 700),
+		"====", "=", "A===", "==QQ", "QUJDQUJD========", "QQ======", "QUJD=", " QUJD ", "QUJD\nQUJD"}
 	fromUniverse = []string{peerFull, "juliet@example.com", remoteAddr, roomMe, roomBare, roomBare + "/other", localAddr, localAddr + "/res", ""}
 	msgTypes     = []string{"", "normal", "chat", "chat", "normal", "groupchat", "headline", "error"}
 	queryIDs     = []string{"q1", "q1", "q2", ""}
@@ -203,7 +204,13 @@ var templates = []template{
 		sb.WriteString(`<iq type="set" id="` + id + `o" from="` + peerFull + `" to="` + localAddr + `"><open xmlns="http://jabber.org/protocol/ibb" block-size="4096" sid="` + sid + `"` + st + `/></iq>`)
 		n := rapid.IntRange(1, 4).Draw(t, "ndata")
 		for k := 0; k < n; k++ {
-			data := pick(t, "b64", []string{"aGVsbG8=", "aGVsbG8gd29ybGQ=", "QQ==", ""})
+			// mostly well-formed data; sometimes data that is in sequence for an
+			// open stream but not base64 (bad alphabet, truncated groups, runs of
+			// padding): it has to be refused, not crash the serve loop
+			data := pick(t, "b64", []string{"aGVsbG8=", "aGVsbG8gd29ybGQ=", "QQ==", "", "aGVsbG8=", "QQ=="})
+			if rapid.IntRange(0, 3).Draw(t, "hostile-b64") == 0 {
+				data = pick(t, "hb64", b64Universe)
+			}
 			if rapid.IntRange(0, 3).Draw(t, "asmsg") == 0 {
 				sb.WriteString(fmt.Sprintf(`<message id="%sd%d" from="%s" to="%s"><data xmlns="http://jabber.org/protocol/ibb" seq="%d" sid="%s">%s</data></message>`, id, k, peerFull, localAddr, k, sid, data))
 			} else {
